@@ -564,7 +564,7 @@ func CompileRegexp(re *syntax.Regexp, config Config) (*Engine, error) {
 			MaxClassSize:  10,
 		})
 		suffixLiterals := suffixExtractor.ExtractSuffixes(re)
-		if suffixLiterals != nil && !suffixLiterals.IsEmpty() {
+		if suffixLiterals != nil && !suffixLiterals.IsEmpty() && !suffixLiterals.IsPartialCoverage() {
 			lcs := suffixLiterals.LongestCommonSuffix()
 			if len(lcs) >= config.MinLiteralLen {
 				anchoredSuffix = lcs
